@@ -145,4 +145,19 @@ BENIGN = [
                 (NIST, """                    enforce_outbuf_len::<Self>(buf);
 
                     // elliptic_curve::ecdh::SharedSecret::raw_secret_bytes returns the serialized""", """                    // elliptic_curve::ecdh::SharedSecret::raw_secret_bytes returns the serialized""")]),
+    dict(name='b-labeled-expand-guard-removed', props=['C02', 'C11'],
+         edits=[(KDF, """        if out.len() > u16::MAX as usize {
+            // The error condition is met, since 2^16 is way bigger than 255 * digest_bytelen
+            return Err(hkdf::InvalidLength);
+        }
+""", "")]),
+    dict(name='b-suite-id-writes-reordered', props=['C02'],
+         edits=[(UTIL, """    write_u16_be(&mut suite_id[4..6], Kem::KEM_ID);
+    write_u16_be(&mut suite_id[6..8], Kdf::KDF_ID);
+    write_u16_be(&mut suite_id[8..10], A::AEAD_ID);""", """    write_u16_be(&mut suite_id[8..10], A::AEAD_ID);
+    write_u16_be(&mut suite_id[4..6], Kem::KEM_ID);
+    write_u16_be(&mut suite_id[6..8], Kdf::KDF_ID);""")]),
+    dict(name='b-key-schedule-locals-renamed', props=['C02', 'C15', 'C16'],
+         edits=[(SETUP, """        let (info_hash, _) = labeled_extract::<Kdf>(&[], &suite_id, b"info_hash", info);""", """        let ih = labeled_extract::<Kdf>(&[], &suite_id, b"info_hash", info);
+        let info_hash = ih.0;""")]),
 ]
